@@ -49,7 +49,13 @@ EXTRA = ['CN(=O)=O', 'C[N+](=O)[O-]', 'CN=[N+]=[N-]', 'CN=N#N', 'C[S+](C)[O-]', 
          'C[NH2+]C=CC=C[O-]', '[O-]C=C[PH3+]', '[NH3+]C=C[CH-]C(C)=O', '[O-]C=C[SH2+]', 'C[SH+]C=C[O-]', 'C[PH2+]C=CC=C[O-]', '[O-]C=C[OH2+]',
          # quinoid aza-indoles / carbolines (anhydro bases) and their N-H parents
          'N1C=CC2=NC=CC2=C1', 'CN1C=CC2=NC=CC2=C1', 'CN1C=CC2=CC=NC2=C1', 'CN1C=CC=C2N=CC=C12', 'CN1C=CC2=C3C=CC=CC3=NC2=C1', 'C1=CC=CC=C1N1C=CC2=NC=CC2=C1',
+         # fused polyaza-heteroarenes (ring-protonated variants are generated from them)
+         'c1ncc2[nH]cnc2n1', 'Nc1ncnc2[nH]cnc12', 'c1cc2[nH]cnc2cn1', 'c1ccc2[nH]cnc2c1', 'c1cnc2[nH]ccc2c1', 'O=c1[nH]cnc2[nH]cnc12', 'c1cc2nc[nH]c2cn1', 'c1ncc2cc[nH]c2n1',
          '[H]OC', '[H]N([H])C(=O)C', '[2H]OC', 'C[C@H](N)C(=O)O', 'C[C@H]([NH3+])C([O-])=O', 'OC[C@H](O)[C@@H](O)[C@H](O)[C@H](O)C=O']
+
+
+def _extra_set():
+    return set(EXTRA)
 
 
 def documented_pairs():
@@ -344,6 +350,11 @@ def check_tautomers(ctx, m, src, cfg, rng, numbering):
             if t.check_valence():
                 ctx.violation('valence-error-produced/enumerate_tautomers', '%s -> %s' % (src, t), {'smiles': src, 'op': 'enumerate_tautomers'})
                 return
+            if any(b.order == 4 for *_, b in t.bonds()) and not kekulizable(t):
+                # aromatic atoms are not judged by check_valence(): a tautomer is a molecule only if it has a Kekule form
+                ctx.violation('tautomer-without-kekule-form' + ('/n-metalated-azole' if G.n_metalated_azole(t) else ''),
+                              '%s -> %s' % (src, t), {'smiles': src, 'op': 'enumerate_tautomers'})
+                return
             s = str(t)
             if s in seen:
                 ctx.violation('tautomer-enumerated-twice', '%s: %s' % (src, s), {'smiles': src, 'op': 'enumerate_tautomers'})
@@ -444,6 +455,7 @@ def worker(ctx):
     src = [c[i] for k, i in enumerate(ids[:cfg['n_corpus']]) if ctx.mine(k)]
     src += [s for k, s in enumerate(EXTRA) if ctx.mine(k)] + [s for k, (s, _) in enumerate(G.special()) if ctx.mine(k)]
     ntaut = 0
+    EXTRA_SET = _extra_set()
     for s in src:
         if ctx.out_of_time():
             ctx.note('time budget reached')
@@ -493,6 +505,17 @@ def worker(ctx):
         if ntaut < cfg['n_taut'] // ctx.nshards + 1:
             ntaut += 1
             check_tautomers(ctx, m, s, cfg, rng, numbering=True)
+        if s in EXTRA_SET or rng.random() < .25:
+            # ring-protonated form of the same molecule (a cation neutralize() cannot neutralise away when no counter-ion is there)
+            try:
+                kk = fresh(m)
+                kk.kekule()
+                pq = G.quaternize(kk, rng, protonate=True)
+            except Exception:
+                pq = None
+            if pq is not None:
+                ctx.count('tautomers.of-ring-protonated-variants')
+                check_tautomers(ctx, pq, str(pq), cfg, rng, numbering=False)
     ctx.blobs['fired'] = dict(fired)
 
 
